@@ -19,12 +19,27 @@ use std::{fmt, hash::Hash};
 //
 // requirements:
 // - values must be immutable
-#[derive(Default, Clone)]
+#[derive(Default)]
 pub struct IdSet<T: Hash + Eq> {
     map: HashMap<Ptr<T>, u32>,
     current_buf: Vec<T>, // TODO: instead of using Vec<T> for a buffer, maybe use a [MaybeUninit<T>], or even a raw buffer of bytes...
     old_bufs: Vec<Vec<T>>,
     id_to_ptr: Vec<*mut T>,
+}
+
+// `map` and `id_to_ptr` hold raw pointers into `current_buf`/`old_bufs`, so a clone must
+// not copy them: it is rebuilt by inserting the values in id order, which gives every
+// value the same id and makes all pointers refer to the clone's own buffers.
+impl<T: Hash + Eq + Clone> Clone for IdSet<T> {
+    fn clone(&self) -> Self {
+        let mut cloned = Self::new();
+        for &ptr in &self.id_to_ptr {
+            // SAFETY: every pointer in id_to_ptr points to a valid T owned by self
+            let value = unsafe { &*ptr };
+            cloned.insert(value.clone());
+        }
+        cloned
+    }
 }
 
 /// wrapper around *const T w
